@@ -24,7 +24,8 @@ SrvLocs == {<<"l1">>, <<"l1", "l2">>, <<"lx">>, <<"l2", "lx">>}
 Servers == {<<[locs |-> sl, cache |-> c, compress |-> p]>> : sl \in SrvLocs, c \in {"c1", "cx"}, p \in {"", "p1", "px"}}
              \cup {<<[locs |-> <<"l1">>, cache |-> "c1", compress |-> ""], [locs |-> sl, cache |-> c, compress |-> "p1"]>> :
                      sl \in SrvLocs, c \in {"c1", "cx"}}
-Malformed == {"none", "cachesize0", "badduration", "badaddr", "badprefix", "badpolicy", "longname", "nolocations", "badsize", "badfilter"}
+Malformed == {"none", "cachesize0", "badduration", "badaddr", "badprefix", "badpolicy", "longname", "nolocations", "badsize", "badfilter",
+              "duploc"}     \* duploc: two location entries share a name, the first names an upstream that does not exist
 
 Configs ==
   {[ups |-> u, locs |-> l, servers |-> s, malformed |-> m] :
@@ -42,7 +43,7 @@ MayAccept(c) == Closed(c) /\ c.malformed = "none"
 Relevant(c) == (c.malformed # "none" => Closed(c))    \* one defect at a time
 
 (* second configuration applied over a valid first one: upstream renamed / location re-pointed *)
-Seconds == {"none", "rename_upstream", "swap_locations", "drop_compress"}
+Seconds == {"none", "rename_upstream", "swap_locations", "drop_compress", "add_location"}
 
 VARIABLE l
 
@@ -50,7 +51,7 @@ EmitInit ==
   /\ l = 0
   /\ LET Q == SetToSeq({c \in Configs : Relevant(c)})
      IN ndJsonSerialize(IOEnv.OUT, [i \in 1..Len(Q) |->
-            Q[i] @@ [second |-> IF MayAccept(Q[i]) THEN SetToSeq(Seconds)[(i % 4) + 1] ELSE "none",
+            Q[i] @@ [second |-> IF MayAccept(Q[i]) THEN SetToSeq(Seconds)[(i % 5) + 1] ELSE "none",
                      history |-> MayAccept(Q[i]) /\ i % 3 = 0]])
 EmitNext == FALSE /\ l' = l
 
